@@ -176,6 +176,14 @@ func AssertBytesEqual(a, b []byte, label string) {
 	}
 }
 
+// Min is min(a, b) without a control-flow fork under the engine.
+func Min(a, b int) int {
+	if a < b {
+		return a
+	}
+	return b
+}
+
 // Cover marks a reachability witness.
 func Cover(label string) {}
 
